@@ -61,6 +61,8 @@ class ReactiveDevice:
       rid = 70 + self.nopen
       self.lids[self.nopen] = (a0, rid)
       self.rx.extend(self.uf.frame('OKAY', rid, a0))
+      for d in self.script.get(self.nopen, []):      # data the service sends right behind its OKAY
+        self.rx.extend(self.uf.frame('WRTE', rid, a0, d))
     elif cmd == 'WRTE' and self.ack_writes:
       self.rx.extend(self.uf.frame('OKAY', a1, a0))
 
@@ -136,6 +138,28 @@ def scenario(name, tmo):
                threading.Thread(target=reader, args=(s1, 'Rb', 1), name='Rb'),
                threading.Thread(target=writer, args=(s2, 'W', 'q'), name='W')]
         box['expect'] = None
+      elif name == 'ro':         # a stream is opened while the reader of another stream has the reader role:
+        s1 = conn.open_stream('shell:1', timeout_ms=5000)   # the new stream's OKAY and its first WRTE arrive
+        dev.script[2] = ['two']                             # back to back and may both be routed by the other thread
+
+        def opener():
+          try:
+            s2 = conn.open_stream('shell:2', timeout_ms=5000)
+          except Exception as e:  # pylint: disable=broad-except
+            log.append(('O', 'open-exc', type(e).__name__))
+            return
+          log.append(('O', 'open', s2 is not None))
+          if s2 is not None:
+            reader(s2, 'R2')
+
+        def late1():
+          import time
+          time.sleep(1.0)
+          dev.push(1, 'one')
+        ths = [threading.Thread(target=reader, args=(s1, 'R1'), name='R1'),
+               threading.Thread(target=opener, name='O'),
+               threading.Thread(target=late1, name='D')]
+        box['expect'] = {('R1', 'read', 'one'), ('O', 'open', True), ('R2', 'read', 'two')}
       elif name == 'rwt':        # one stream: the writer's ack never comes and its wait times out while it
         st = conn.open_stream('shell:x', timeout_ms=5000)   # holds the reader role; data for the reader arrives later
         dev.ack_writes = False
@@ -210,7 +234,7 @@ def judge(name, tmo, box):
   if dev is not None:
     wr = sum(1 for c in dev.host if c[0] == 'WRTE')
     acks = collections.Counter((c[1], c[2]) for c in dev.host if c[0] == 'OKAY')
-    sent = {'rw1': {1: 1}, 'rr2': {1: 1, 2: 1}, 'rrw': {1: 2}, 'rr3': {1: 1, 2: 2}, 'rwt': {1: 1}}[name]
+    sent = {'rw1': {1: 1}, 'rr2': {1: 1, 2: 1}, 'rrw': {1: 2}, 'rr3': {1: 1, 2: 2}, 'rwt': {1: 1}, 'ro': {1: 1, 2: 1}}[name]
     for n, cnt in sent.items():
       lid, rid = dev.lids[n]
       if acks.get((lid, rid), 0) != cnt:
@@ -297,7 +321,7 @@ def emit_replay(chk, pool, limit, ops, wire, dev, dataseqs, illegal='"AUTH"', st
 
 def dfs(chk, pool, bound, maxruns):
   jobs = []
-  for name in ('rw1', 'rr2', 'rrw', 'rr3', 'rwt'):
+  for name in ('rw1', 'rr2', 'rrw', 'rr3', 'rwt', 'ro'):
     for tmo in (None, 2000):
       jobs.append((name, tmo, bound, (), maxruns))
   outs = pool.map(explore_scenario, jobs)
@@ -310,7 +334,7 @@ def dfs(chk, pool, bound, maxruns):
       chk.violation(sig, det)
     chk.tlc_runs.append(dict(name='dfs %s timeout=%s bound=%d' % (j[0], j[1], bound), schedules=o['n'],
                              outcomes=dict(o['outcomes'])))
-  chk.sample(dict(part='schedules', scenarios=['rw1', 'rr2', 'rrw', 'rr3', 'rwt'], explored=total))
+  chk.sample(dict(part='schedules', scenarios=['rw1', 'rr2', 'rrw', 'rr3', 'rwt', 'ro'], explored=total))
   chk.log('%d schedules of reader/writer threads explored' % total)
 
 
